@@ -222,10 +222,29 @@ def check(run, replay=None):
     io, mo = io.split("\n"), mo.split("\n")
     cov = run.coverage
     if rc != 0:
-        k = len([x for x in io if x.strip()])
-        bad = lines[min(k, len(lines) - 1)]
+        k = min(len([x for x in io if x.strip()]), len(hists) - 1)
+        h = list(hists[k])
+
+        def crashes(hh):
+            r, o, e = C.sh("ASAN_OPTIONS=detect_leaks=1 " + exe, inp=text(hh) + "\n", timeout=60)
+            return r != 0, e
+        if crashes(h)[0]:
+            changed = True
+            while changed and len(h) > 1:
+                changed = False
+                for d in range(len(h)):
+                    cand = h[:d] + h[d + 1:]
+                    if crashes(cand)[0]:
+                        h, changed = cand, True
+                        break
+        _, e = crashes(h)
         run.finding("crash", "counterexample", "life-cycle history [%s] crashes (double free / use after free / leak reported by ASan): %s"
-                    % (bad[:300], [x for x in se.split("\n") if "ERROR" in x or "SUMMARY" in x][:2]), {"ops": [list(map(str, t)) for t in hists[min(k, len(hists) - 1)]]})
+                    % (text(h)[:300], [x for x in e.split("\n") if "ERROR" in x or "SUMMARY" in x][:2]), {"ops": [list(map(str, t)) for t in h]})
+        # carry on with the histories after the crashing one
+        rest = lines[k + 1:]
+        if rest:
+            rc3, io3, se3 = C.sh("ASAN_OPTIONS=detect_leaks=1 " + exe, inp="\n".join(rest) + "\n", timeout=900)
+            io = io[:k] + [""] + io3.split("\n")
     nontriv = set()
     for h, l, a, b in zip(hists, lines, mo, io):
         cov["evaluations"] += 1
